@@ -87,36 +87,45 @@ Definition matches (b : broker) (c : cop) : bool :=
   let '(_, r, closed) := step nocf b (co_op c) in
   Bool.eqb (model_ok (co_op c) r) (co_ok c) && Bool.eqb (model_err r) (co_err c) && eqNl (sortN closed) (co_closed c).
 Definition next_state (b : broker) (c : cop) : broker := fst (fst (step nocf b (co_op c))).
-Definition same_cop (a c : cop) : bool := N.eqb (co_inv a) (co_inv c) && N.eqb (co_ret a) (co_ret c).
-Fixpoint remove_cop (c : cop) (l : list cop) : list cop :=
-  match l with [] => [] | x :: t => if same_cop x c then t else x :: remove_cop c t end.
 Definition final_ok (b : broker) (final : bobs) : bool := match check_state b final with [] => true | _ => false end.
 
-(* depth-first search over the linear extensions of the real-time order, pruned by the observed results; depth >= number
+(* the candidates of one search node: cands are tried in turn, pre holds the ones already passed over (in reverse);
+   rec is the search on the remaining calls (one level down) *)
+Fixpoint try_cands (rec : N -> broker -> list cop -> N * lres) (pend : list cop) (b : broker)
+         (pre cands : list cop) (budget : N) {struct cands} : N * lres :=
+  match cands with
+  | [] => (budget, LNone)
+  | c :: rest =>
+      if eligible c pend && matches b c then
+        let '(bud', r) := rec (N.pred budget) (next_state b c) (rev_append pre rest) in
+        match r with
+        | LFound => (bud', LFound)
+        | LBudget => (bud', LBudget)
+        | LNone => try_cands rec pend b (c :: pre) rest bud'
+        end
+      else try_cands rec pend b (c :: pre) rest budget
+  end.
+
+(* depth-first search over the linear extensions of the real-time order, pruned by the observed results; depth > number
    of pending calls; budget = number of search nodes still allowed *)
 Fixpoint lin (depth : nat) (budget : N) (final : bobs) (b : broker) (pend : list cop) : N * lres :=
   match depth with
-  | O => (budget, match pend with [] => if final_ok b final then LFound else LNone | _ => LBudget end)
+  | O => (budget, LBudget)
   | S d =>
       if N.eqb budget 0 then (0%N, LBudget) else
       match pend with
       | [] => (budget, if final_ok b final then LFound else LNone)
-      | _ =>
-          (fix try (cands : list cop) (budget : N) {struct cands} : N * lres :=
-             match cands with
-             | [] => (budget, LNone)
-             | c :: rest =>
-                 if eligible c pend && matches b c then
-                   let '(bud', r) := lin d (N.pred budget) final (next_state b c) (remove_cop c pend) in
-                   match r with
-                   | LFound => (bud', LFound)
-                   | LBudget => (bud', LBudget)
-                   | LNone => try rest bud'
-                   end
-                 else try rest budget
-             end) pend budget
+      | _ => try_cands (fun bud b' p' => lin d bud final b' p') pend b [] pend budget
       end
   end.
+
+(* what the search decides: some order of the calls that respects real time (every call is minimal, w.r.t. "returned
+   before the other was invoked", among those still to come) replays on the model with the observed results and ends in
+   the observed registry *)
+Fixpoint rt_sorted (order : list cop) : bool :=
+  match order with [] => true | c :: t => eligible c (c :: t) && rt_sorted t end.
+Fixpoint replay_ok (final : bobs) (b : broker) (order : list cop) : bool :=
+  match order with [] => final_ok b final | c :: t => matches b c && replay_ok final (next_state b c) t end.
 
 Definition lin_budget : N := 200000%N.
 Definition check_lin (c : ccase) : list (N * N * ckind2) :=
